@@ -158,6 +158,22 @@ CLAIMED["C13"] = row("§5 C13 / §15",
     "Trusted: fontTools readers, mc/otl_ref.py. Straight-line integer outlines only (TrueType component rounding).",
     "exhaustive enumeration of component graphs x all skip subsets with a differential (skip vs no-skip) oracle")
 
+CLAIMED["C14"] = row("§5 C14 / §15",
+    "31 filter configurations (every shipped filter and I-variant incl. degenerate options) x 132 include/exclude/"
+    "predicate specifications x three sibling fonts; every history of <= 2 (quick) / 3 (thorough) invocations of ONE "
+    "filter object; four oracle clauses: untouched glyphs snapshot-equal, every changed/added/removed glyph reported, "
+    "source font frame, history independence against a fresh filter object (and master-order independence of "
+    "I-filters).",
+    "Trusted: mc/snapshot.py. Third-party filters, fonts > 7 glyphs, histories > 3 are outside the bound.",
+    "explicit-state exploration of filter call histories on live objects with frame, report and differential oracles")
+CLAIMED["C15"] = row("§5 C15 / §15",
+    "Component tries of depth 3 (4 in thorough) over 9/14 transforms in three variants x {Decompose, "
+    "DecomposeTransformed, Flatten} x plain/interpolatable; 360 Transformations option sets x every include subset of "
+    "a 3-chain and a diamond; anchor propagation over tries and a base/mark product; the independent resolver's "
+    "contour multisets, matrix images and anchor positions are compared before/after.",
+    "Trusted: mc/outline_ref.py, mc/glyphspec.py (selftested). Depth > 4 and mirroring filter matrices are outside.",
+    "bounded exhaustive enumeration of component graphs x filter options against an independent outline resolver")
+
 NOT_APPLICABLE = {}
 
 
